@@ -583,6 +583,32 @@ def rule_R9(ctx):
               "error increments: %s" % counts, "expected error increments in the joint walk (2), the observed remainder (1) and the signature remainder (1); found %s" % counts, ctx.loc(b))
 
 
+def rule_R11(ctx):
+    """R11: the option layout and the quirk list are compared as whole lists (==): no pairwise zip (which stops at the shorter
+    list, so a prefix counts as equal), no truncation"""
+    P = ctx.program
+    n = 0
+    for b in P.bodies.values():
+        if b.crate != "huginn_net_db" or not b.name.startswith("distance_") or not b.blocks:
+            continue
+        n += 1
+        bad = []
+        for cb in [b] + P.closures_of(b.path):
+            for blk, t in cb.calls():
+                nm = callee_of(t)
+                if nm.endswith(("::zip", "::take", "::skip", "::take_while", "::skip_while", "::step_by", "::starts_with", "::ends_with", "::windows")) and "Iterator" in nm + "" or \
+                        (nm.endswith(("::zip",)) ):
+                    bad.append((cb, blk, T.short(nm)))
+                elif nm.endswith(("::starts_with", "::ends_with")) and "slice" in nm:
+                    bad.append((cb, blk, T.short(nm)))
+        if b.name == "distance_header":
+            continue   # ordered header walk with optional entries: judged by R9 / R7
+        ctx.check(not bad, "R11", "%s:whole-lists" % T.short(b.path), "no pairwise / truncating comparison",
+                  "%s compares lists through %s: a list that is a proper prefix (or extension) of the other counts as equal, so the distance function accepts observations the "
+                  "signature does not describe - and the exact-string index key hides them from the lookup" % (b.name, ",".join(x[2] for x in bad)), ctx.loc(bad[0][0], bad[0][1]) if bad else ctx.loc(b))
+    ctx.floor("R11", "distance_* functions", n, 8)
+
+
 def rule_R8(ctx):
     """R8: quantities compared by the distance functions are never truncated: every integer conversion in the matching code
     widens (a narrowed ratio / length aliases distinct values onto one, turning a mismatch into an exact hit)"""
@@ -605,6 +631,7 @@ def rule_R8(ctx):
 
 
 def run(ctx):
+    rule_R11(ctx)
     rule_R10(ctx)
     rule_R8(ctx)
     rule_R9(ctx)
